@@ -1,6 +1,6 @@
 CONSTANTS
   Dev = {}
-  RecU = {1, 2}
+  RecU = {5, 13}
   MaxC = 1
   Kinds = {"ixfr2"}
   MaxMsgs = 3
